@@ -328,8 +328,10 @@ pub fn finish(info: &RunInfo, mon: &Mon) -> i32 {
         "violations": new_sigs.values().map(|(c, _)| *c).sum::<usize>(),
         "verdict": if exit == 1 { "violated" } else if exit == 2 { "inconclusive" } else { "held on what was observed" },
     });
-    let _ = std::fs::create_dir_all(format!("{}/evidence", VERIF_DIR));
-    let path = format!("{}/evidence/{}.json", VERIF_DIR, info.property);
+    // auxiliary runs (sanitizer builds, experiments) may redirect their evidence
+    let edir = std::env::var("VERIF_EVIDENCE_DIR").unwrap_or_else(|_| format!("{}/evidence", VERIF_DIR));
+    let _ = std::fs::create_dir_all(&edir);
+    let path = format!("{}/{}.json", edir, info.property);
     std::fs::write(&path, serde_json::to_string_pretty(&ev).unwrap()).expect("cannot write evidence");
     let inc: u64 = mon.inconclusive.values().sum();
     out(&format!(
